@@ -282,3 +282,31 @@ pub fn au_encode(l: usize, cap: usize, sched: &[(usize, usize)], br: usize) {
     witness!("schedule executed and outputs compared");
     std::mem::forget((a, b, input, ra, _t));
 }
+
+/// AuDecode in its data state (header already accepted): `nd` symbolic PCM bytes in the
+/// scheduled pieces vs. at once.  Also compares with the documented PCM16 conversion.
+pub fn au_decode_data(nd: usize, cap_in: usize, cap_out: usize, sched: &[(usize, usize)], br: usize) {
+    let input = sym_vec::<u8>(nd);
+    let mk = |src: ReadStream<u8>| rustradio::au::verif_access::decoder_in_data_state(src, 8000);
+    let mut a = Rig11::new(nd.max(1), nd.max(1), &mk);
+    a.flush(&input, &[], 4);
+    let mut b = Rig11::new(cap_in, cap_out, &mk);
+    for (f, d) in sched {
+        let v = b.step(&input, &[], *f, *d);
+        assert!(v != Verdict::Err, "work() returned an error on PCM data");
+        assert!(b.out.data.len() <= a.out.data.len(), "scheduled run produced more output than the one-shot run");
+        for i in 0..b.out.data.len() {
+            assert!(b.out.data[i].bits_eq(&a.out.data[i]), "scheduled output is not a prefix of the one-shot output");
+        }
+    }
+    b.flush(&input, &[], br);
+    assert!(b.out.data.len() == a.out.data.len(), "output length depends on chunking");
+    assert!(a.out.data.len() == nd / 2, "decoded sample count is not floor(bytes/2)");
+    for i in 0..a.out.data.len() {
+        assert!(b.out.data[i].bits_eq(&a.out.data[i]), "output sample depends on chunking");
+        let e = (i16::from_be_bytes([input[2 * i], input[2 * i + 1]]) as f32) / 32767.0;
+        assert!(a.out.data[i].bits_eq(&e), "decoded sample differs from big-endian PCM16 / 32767");
+    }
+    witness!("schedule executed and outputs compared");
+    std::mem::forget((a, b, input));
+}
